@@ -206,7 +206,7 @@ def evaluate__div_operator(self: XPathToken, context: ta.ContextType = None) \
             isinstance(dividend, (int, decimal.Decimal)) and \
             isinstance(divisor, (int, decimal.Decimal)):
         raise self.error('FOAR0001')
-    elif dividend == 0 or math.isnan(dividend):
+    elif dividend == 0 or isinstance(dividend, float) and math.isnan(dividend):
         return _float_result(math.nan, dividend, divisor)
     elif dividend > 0:
         return _float_result(
